@@ -124,6 +124,34 @@ def run(ck: Check, prog: Program) -> None:
                  and dotted(n.ast.value) == rv]
         if len(links) != 1:
             p2.append(('accepted responses are not linked to their requests', h.line, 'response.related = request expected in the loop'))
+        # every call of the batch is looked up: the loop over the requests ends only by exhaustion (or by raising), and an
+        # iteration can avoid the lookup only for a notification (request id None)
+        body_start = [e.dst for e in bcfg.succ[h.id] if e.label == 'body']
+        if body_start:
+            fwd = {body_start[0].id} | bcfg.reachable(body_start[0], avoid_nodes=[h])
+            body = {i for i in fwd if i != h.id and (h.id in bcfg.reachable(bcfg.nodes[i]))}
+            for u_id in sorted(body):
+                u = bcfg.nodes[u_id]
+                for e in bcfg.succ[u_id]:
+                    if e.label == 'exc' or e.dst is h or e.dst.id in body or e.dst.kind in ('raise',) or isinstance(e.dst.ast, ast.Raise):
+                        continue
+                    u = e.dst
+                    p2.append(('the loop over the calls can end before every call was looked up', u.line,
+                               f'`{norm(u.ast)[:60]}` leaves the loop over {breq} (break / return): the calls that follow are never checked, so a '
+                               f'batch response that omits them is accepted instead of raising IdentityError'))
+            if len(pops) == 1:
+                none_edges = []
+                for c_ in bcfg.nodes:
+                    if c_.kind == 'cond' and c_.id in body:
+                        ckd = classify_cond(prog, brel, c_.ast)
+                        if ckd.kind == 'is-none' and ckd.subject == f'{rv}.id':
+                            none_edges += [e for e in bcfg.succ[c_.id] if e.label in ('T', 'F') and (e.label == 'T') != ckd.negated]
+                        elif ckd.kind == 'truthy' and ckd.subject == f'{rv}.is_notification':
+                            none_edges += [e for e in bcfg.succ[c_.id] if e.label in ('T', 'F') and (e.label == 'T') != ckd.negated]
+                skip = bcfg.reachable(body_start[0], avoid_nodes=[pops[0][0]], avoid_edges=none_edges)
+                if (h.id in skip or body_start[0] is h) and body_start[0] is not pops[0][0]:
+                    p2.append(('a call can pass the loop without being looked up', h.line,
+                               'an iteration for a request that has an id can reach the next one without the response-map lookup'))
     left = [n for n in bcfg.stmt_nodes() if isinstance(n.ast, ast.Raise) and 'IdentityError' in norm(n.ast) and
             (not heads or n.id in bcfg.reachable([e.dst for e in bcfg.succ[heads[0].id] if e.label == 'exhausted'][0]) or
              n is [e.dst for e in bcfg.succ[heads[0].id] if e.label == 'exhausted'][0])]
@@ -311,6 +339,10 @@ def _order_by_request(ck: Check, prog: Program, brel: FuncInfo, bcfg: CFG, breq:
 
 
 MUTANTS = [
+    dict(name='relate-loop-stops-when-map-is-empty', file='pjrpc/client/client.py',
+         find='                    elif response is not None:\n                        response.related = request\n',
+         replace='                    elif response is not None:\n                        response.related = request\n'
+                 '                    if not response_map:\n                        break\n', expect='RELATE-STRICT'),
     dict(name='compare-ids-as-strings', file='pjrpc/client/client.py', find='response.id is not None and response.id != request.id',
          replace='response.id is not None and str(response.id) != str(request.id)', expect='RELATE-STRICT'),
     dict(name='drop-leftover-check', file='pjrpc/client/client.py',
